@@ -153,8 +153,9 @@ class Ctx:
             "wall_s": round(time.time() - self.t0, 2),
             "violations": len(new),
         }
-        EVIDENCE.mkdir(parents=True, exist_ok=True)
-        (EVIDENCE / f"{self.prop}.json").write_text(json.dumps(ev, indent=1, default=str) + "\n")
+        if not getattr(self, "replay_mode", False):       # a replay re-examines one finding; it is not the check's evidence
+            EVIDENCE.mkdir(parents=True, exist_ok=True)
+            (EVIDENCE / f"{self.prop}.json").write_text(json.dumps(ev, indent=1, default=str) + "\n")
         shutil.rmtree(self.work, ignore_errors=True)
         try:
             if WORK.exists() and not any(WORK.iterdir()):
